@@ -36,7 +36,7 @@ Dummy == [kind |-> "ideal", init |-> 0, mn |-> 0, md |-> 1, tn |-> 1, td |-> 1, 
 TraceInit ==
     /\ i = 1 /\ tid = -1 /\ rej = <<>>
     /\ bat = Dummy /\ lo = 0 /\ hi = 0 /\ eLo = 0 /\ eHi = 0 /\ dLo = 0 /\ dHi = 0 /\ pE = 0 /\ mE = 0
-    /\ dec = TRUE /\ tab = <<>> /\ nops = 0 /\ last = "init" /\ hist = <<>>
+    /\ dec = TRUE /\ tab = <<>> /\ base = 0 /\ nops = 0 /\ last = "init" /\ hist = <<>>
 
 \* the envelope, on intervals: do integers in the logged intervals satisfy it?
 Fits(r) ==
@@ -57,7 +57,7 @@ Why(r) ==
 Take(r) ==
     /\ lo' = r.c1[1] /\ hi' = r.c1[2] /\ eLo' = r.e[1] /\ eHi' = r.e[2] /\ pE' = r.pe /\ mE' = r.me
     /\ tid' = r.tid /\ i' = i + 1 /\ nops' = nops + 1 /\ last' = "charge"
-    /\ UNCHANGED <<bat, dLo, dHi, dec, tab, hist>>
+    /\ UNCHANGED <<bat, dLo, dHi, dec, tab, base, hist>>
 
 Accept == i <= Len(Trace) /\ LET r == Trace[i] IN Continues(r) /\ Fits(r) /\ Take(r) /\ UNCHANGED rej
 Reject == i <= Len(Trace) /\ LET r == Trace[i] IN
@@ -67,7 +67,7 @@ Done ==
     /\ i = Len(Trace) + 1 /\ last # "emitted"
     /\ PrintT(<<"REJ", ToJson([lines |-> Len(Trace), rejected |-> rej])>>)
     /\ last' = "emitted"
-    /\ UNCHANGED <<bat, lo, hi, eLo, eHi, dLo, dHi, pE, mE, dec, tab, nops, hist, i, tid, rej>>
+    /\ UNCHANGED <<bat, lo, hi, eLo, eHi, dLo, dHi, pE, mE, dec, tab, base, nops, hist, i, tid, rej>>
 TraceTerminated == last = "emitted" /\ UNCHANGED tvars
 
 TraceNext == Accept \/ Reject \/ Done \/ TraceTerminated
